@@ -37,7 +37,7 @@ func (p *Person) flatString() string {
 	if p.Phone != "" {
 		s += fmt.Sprintf("p(%s)", p.Phone)
 	}
-	if p.Contacts != nil {
+	if len(p.Contacts) > 0 {
 		s += "c("
 		for _, c := range p.Contacts {
 			s += c.flatString()
